@@ -53,6 +53,8 @@ Definition run_c19 (l : list Z) : list Z :=
       match ir_from_xywh a b c d with Some r => enc_oir (ir_translate_to r dx dy) | None => [-2] end
   | [30; w; h] => match pixmap_new_ok w h with Some n => [n] | None => [-1] end
   | [31; len; w; h] => [if from_vec_ok len w h then 1 else 0]
+  (* Mask::from_vec: a valid IntSize (both dimensions in 1 .. 2^32 - 1) and exactly w * h bytes *)
+  | [35; len; w; h] => [if (1 <=? w) && (w <=? 4294967295) && (1 <=? h) && (h <=? 4294967295) && (len =? w * h) then 1 else 0]
   | [32; len; w; h] => match from_bytes_ok len w h with Some n => [n] | None => [-1] end
   | [33; w; h; x; y] => match pixel_index w h x y with Some i => [i] | None => [-1] end
   | [40; r; g; b; a] =>
